@@ -12,6 +12,11 @@ pub fn parse(buf: &[u8]) -> Result<dnspkt::DNSPkt, String> {
 pub use super::cache::verif as cache;
 pub use super::outquery::verif_reset_timeout;
 
+/// Fresh cookie keys (the keys are process global and their rotation time is a tokio instant).
+pub async fn reset_cookie_keys() {
+    *super::COOKIE_KEYS.write().await = super::CookieKeys::new();
+}
+
 /// The per-source REFUSED limiter used by the UDP listener.
 pub struct RateLimiter(super::IpRateLimiter);
 
